@@ -350,6 +350,10 @@ class Runner:
                 st = steps[bad]
                 r["judge"] = {"why": "the handler %s at notification %d" % (
                     "panicked: " + sx_str(st[-1]) if st[0] == -999 else "returned an error", bad), "step": bad}
+                ns_i = notifications(h, autosave)
+                if st[0] == -999 and bad < len(ns_i) and ns_i[bad][0] == 1:
+                    # the didChange handler (quick_check_file) panicked: class of the known finding, if it is listed
+                    r["known"] = "C29-quick-check-panics"
                 if st[0] == -999:
                     # is it the analysis of that text itself that panics (then a fresh server panics on it too: a
                     # defect of the checker, property C07, and there are no diagnostics to compare) or the history?
@@ -374,6 +378,12 @@ class Runner:
             if v != 1:
                 if loose(r["inc_final"]) == loose(r["fresh_final"]):
                     r["noise"] = True      # same diagnostics up to the print order of type-variable bounds
+                elif not autosave and sorted(set(loose(r["inc_final"]))) == sorted(set(loose(r["fresh_final"]))):
+                    # polling mode, same diagnostics but some of them twice: the polling thread and the didSave
+                    # handler analysed the document at the same time (known finding, timing-dependent)
+                    r["known"] = "C29-polling-race-duplicates"
+                    r["judge"] = {"why": "diagnostics published twice (concurrent analyses of the same document)",
+                                  "incremental": r["inc_final"], "fresh": r["fresh_final"]}
                 else:
                     r["judge"] = {"why": "the diagnostics published last differ from those of a fresh server on the final text",
                                   "incremental": r["inc_final"], "fresh": r["fresh_final"]}
@@ -554,12 +564,17 @@ def _run(ctx, proof, runner):
         if not autosave:
             for i, r in enumerate(res):
                 for _ in range(2):
-                    if res[i]["judge"] is not None:
+                    if res[i]["judge"] is not None and res[i].get("known") != "C29-polling-race-duplicates":
                         ctx.count("polling mode: difference in one run, history run again")
                         res[i] = runner.evaluate([hists[i]], autosave)[0]
         evaluated += len(hists)
         for (tag, h, _), r in zip(batch, res):
             stats(ctx, h, r, origin if origin == "generated" else "corpus", autosave)
+            kf = next((k for k in ctx.known() if r["judge"] is not None and k.get("id") == r.get("known")), None)
+            if kf is not None:
+                ctx.known_finding(kf)
+                ctx.count("known finding reproduced: " + kf["id"])
+                continue
             if r["judge"] is not None:
                 n_judge += 1
                 if n_judge <= 3:
